@@ -143,9 +143,14 @@ func fsm1(c *Ctx) {
 	// (d) false only after a full scan
 	okFalse := true
 	why := ""
+	_, _, scanExit := loopBody(outerHdr)
 	for _, r := range ir.ReturnPoints(fn) {
 		if b, isC := ir.ConstBool(r.Results[0]); isC && !b {
 			if r.Join != nil && r.At == outerHdr {
+				continue
+			}
+			// reachable only over the scan loop's exit edge (threaded: `idx := find(); if idx < 0 { return false }`)
+			if scanExit != nil && !ir.Reach(fn.Blocks[0], nil, map[ir.Edge]bool{{From: outerHdr, To: scanExit}: true})[r.Block()] {
 				continue
 			}
 			if len(r.Block().Preds) != 1 || r.Block().Preds[0] != outerHdr {
@@ -157,13 +162,47 @@ func fsm1(c *Ctx) {
 			why = "non-constant verdict"
 		}
 	}
-	if okB, w := noBreak(outerHdr); !okB {
+	// leaving the scan early is fine when the scan found a shortcut (search-then-act form)
+	foundBreak := true
+	{
+		body, _, _ := loopBody(outerHdr)
+		after := ir.Reach(scanExit, map[*ssa.BasicBlock]bool{outerHdr: true}, nil)
+		for b := range body {
+			if after[b] && !ir.IsReturnJoin(b) {
+				// b is where a break lands: only allowed under the shortcut test being true
+				if !ir.HoldsAt(test, true, b) && !outerBreakFromFound(fn, test, b, body) {
+					foundBreak = false
+				}
+			}
+		}
+	}
+	if okB, w := noBreak(outerHdr); !okB && !foundBreak {
 		okFalse = false
 		why = w
 	}
-	// the not-a-shortcut edge must go straight back to the header
+	// the not-a-shortcut edge must go back to the header without doing anything
 	for _, e := range ir.EdgesWhere(fn, test, false) {
-		if e.To != outerHdr {
+		cur := e.To
+		for i := 0; i < 4 && cur != outerHdr; i++ {
+			pure := len(cur.Succs) == 1
+			for _, in := range cur.Instrs {
+				switch x := in.(type) {
+				case *ssa.Jump, *ssa.DebugRef:
+				case *ssa.BinOp:
+					// the loop counter's increment
+					if x.Op != token.ADD {
+						pure = false
+					}
+				default:
+					pure = false
+				}
+			}
+			if !pure {
+				break
+			}
+			cur = cur.Succs[0]
+		}
+		if cur != outerHdr {
 			okFalse = false
 			why = "a non-shortcut transition does not simply continue the scan"
 		}
@@ -179,6 +218,57 @@ func fsm1(c *Ctx) {
 			}
 		}
 	})
+	if next == nil {
+		// search-then-act: next = recv.Transitions[idx].Next where idx can only be the index the scan stopped
+		// at, read before the list is rewritten
+		scanIdx := trv.(*ssa.UnOp).X.(*ssa.IndexAddr).Index
+		ir.Instrs(fn, func(in ssa.Instruction) {
+			v, ok := in.(ssa.Value)
+			if !ok || next != nil {
+				return
+			}
+			b, isN := fieldOf(v, "Next")
+			if !isN {
+				return
+			}
+			ld, isLd := b.(*ssa.UnOp)
+			if !isLd || ld.Op != token.MUL {
+				return
+			}
+			ia, isIA := ld.X.(*ssa.IndexAddr)
+			if !isIA {
+				return
+			}
+			if base, okT := fieldOf(stripConv(ia.X), "Transitions"); !okT || base != ssa.Value(recv) {
+				return
+			}
+			vals := ir.PhiValuesAt(ia.Index, ld.Block())
+			if len(vals) != 1 || vals[0] != scanIdx {
+				return
+			}
+			// no rewrite of the list can precede this read
+			okOrder := true
+			ir.Instrs(fn, func(in2 ssa.Instruction) {
+				st, isSt := in2.(*ssa.Store)
+				if !isSt {
+					return
+				}
+				if bb, f, isFA := ir.FieldAddr(st.Addr); isFA && f == "Transitions" && bb == ssa.Value(recv) {
+					if st.Block() == ld.Block() && ir.IndexIn(st) < ir.IndexIn(ld) {
+						okOrder = false
+					}
+					for _, sc := range st.Block().Succs {
+						if sc == ld.Block() || ir.Reach(sc, nil, nil)[ld.Block()] {
+							okOrder = false
+						}
+					}
+				}
+			})
+			if okOrder && ir.HoldsAt(test, true, ld.Block()) {
+				next = v
+			}
+		})
+	}
 	if next == nil {
 		c.Bad(key+":target", test.Pos(), "the shortcut's target is not read")
 		return
@@ -1217,6 +1307,17 @@ func valueCopySource(m ssa.Value) ssa.Value {
 		return whole[0]
 	}
 	return m
+}
+
+// outerBreakFromFound: block b (outside the scan loop's body proper) is entered from the loop only over
+// edges that leave blocks in which the shortcut test is known true.
+func outerBreakFromFound(fn *ssa.Function, test ssa.Value, b *ssa.BasicBlock, body map[*ssa.BasicBlock]bool) bool {
+	for _, p := range b.Preds {
+		if body[p] && !ir.HoldsAt(test, true, p) {
+			return false
+		}
+	}
+	return true
 }
 
 func fsm4merge(c *Ctx, fn *ssa.Function) {
